@@ -1,6 +1,7 @@
 \* exhaustive, the section scenarios (every state-diff section in isolation), the code as it is: a setup block
 \* + <= 3 blocks of 3 variants (S for target 1 / S for target 2 / empty diff), <= 2 reverts; the state methods
 \* and getStateUpdate by every number, every hash ever stored and latest
+\* measured: 17 250 distinct states, 3 285 700 transitions, depth 9, ~9 min on a machine loaded by other runs
 CONSTANTS
   MaxLen = 4
   MaxReverts = 2
